@@ -360,7 +360,7 @@ where toHexE (b : Bytes) : String := if b.isEmpty then "" else toHex b
 
 /-- C20 stated on the implementation's output: which realm text may start a lookup, and what the
     outside world may see of it -/
-def dynSpec (cmd id : Bytes) (impl : List String) : String :=
+def dynSpec (cmd id : Bytes) (impl : List String) (alts : List Bytes := []) : String :=
   let id := cstr id
   let parts : List Bytes := id.foldr (fun c acc => if c = 64 then [] :: acc else match acc with | h :: t => (c :: h) :: t | [] => [[c]]) [[]]
   let realm : Option Bytes :=
@@ -371,7 +371,9 @@ def dynSpec (cmd id : Bytes) (impl : List String) : String :=
   let started := impl.any fun t => t.startsWith "sub:" || t.startsWith "exec:" || t.startsWith "dns:" || t.startsWith "arg:"
   match realm with
   | none => if started then "bad C20:lookup-started-without-an-acceptable-realm-part" else "ok"
-  | some r =>
+  | some r0 =>
+    -- `alts`: texts equal to it up to letter case under which an existing sub-realm is keyed
+    let r := (alts.find? fun a => impl.any fun t => t = "sub:" ++ toHex a).getD r0
     let lower := cmd.map Log.toLower
     let wantDns : Option (Nat × Bytes) :=
       if lower.take 6 = DynRealm.naptrPrefix then some (35, r)
@@ -392,8 +394,49 @@ def dynSpec (cmd id : Bytes) (impl : List String) : String :=
     | some b => b
     | none => if !started then "bad C20:no-lookup-for-an-acceptable-realm" else "ok"
 
+def showLookups (l : DynRealm.Lookup) (n : Nat) : String :=
+  match l with
+  | .exec file argv => String.join (List.replicate n (s!" exec:{toHex file};" ++ ",".intercalate (argv.map toHex)))
+  | .dns t q => s!" dns:{t}:{toHex q}"
+
+def dynfindModel (cmd id1 id2 : Bytes) : String :=
+  let p1 := DynRealm.dynLookup cmd id1
+  let s1 := match p1 with
+    | none => "p1 top"
+    | some (r, l) => s!"p1 sub:{toHex r}" ++ showLookups l 2
+  let p2 : Option (Bytes × Bool × DynRealm.Lookup) := match p1 with
+    | none => (DynRealm.dynLookup cmd id2).map fun (r, l) => (r, false, l)
+    | some (r1, _) => DynRealm.refind cmd r1 id2
+  let s2 := match p2 with
+    | none => " | p2 top"
+    | some (r, restart, l) => s!" | p2 sub:{toHex r} sarg:{toHex r}" ++ showLookups l (if restart then 1 else 2)
+  s1 ++ s2
+
+/-- C20 on a whole `dynfind` line: every discovery that was started — first or restarted — was given the text after the last
+    '@' of the identifier at hand (for a restart: the sub-realm's own text, equal to it up to letter case) -/
+def dynfindSpec (cmd id1 id2 : Bytes) (impl : List String) : String :=
+  let groups := (" ".intercalate impl).splitOn " | "
+  match groups with
+  | [g1, g2] =>
+    let t1 := (g1.splitOn " ").filter (· ≠ "")
+    let t2 := (g2.splitOn " ").filter (· ≠ "")
+    let v1 := dynSpec cmd id1 (t1.drop 1)
+    if v1 ≠ "ok" then v1 else
+    -- the text the sub-realm of phase 1 is keyed by
+    let r1 : Option Bytes := (t1.find? (·.startsWith "sub:")).bind fun t => ofHex (t.drop 4).toString
+    let last2 := DynRealm.dynRealmOf (cstr id2)
+    let alts : List Bytes := match r1, last2 with
+      | some r1, some r2 => if DynRealm.lowerAll r1 == DynRealm.lowerAll r2 then [r1] else []
+      | _, _ => []
+    dynSpec cmd id2 ((t2.drop 1).map fun t => if t.startsWith "sarg:" then (t.drop 1).toString else t) alts
+  | _ => "bad output-shape"
+
 def model (op : String) (args : List String) : String :=
   match op, args with
+  | "dynfind", [c, i, j] =>
+    match ofHex c, ofHex i, ofHex j with
+    | some c, some i, some j => dynfindModel c i j
+    | _, _, _ => "bad-op"
   | "dynrealm", [c, i] =>
     match ofHex c, ofHex i with
     | some c, some i => showLookup (DynRealm.dynLookup c i)
@@ -473,6 +516,10 @@ def spec (op : String) (args impl : List String) : String :=
        if 20 ≤ l && l ≤ 4096 then (if r == (l : Int) then "ok" else "bad C16:valid-length-field-not-returned-as-is")
        else if r > 0 then "bad C16:invalid-length-field-accepted" else "ok"
      | _, _ => "bad-op")
+  | "dynfind", [c, i, j], _ =>
+    match ofHex c, ofHex i, ofHex j with
+    | some c, some i, some j => if impl.any (·.startsWith "crash") then "bad sanitizer-or-crash" else dynfindSpec c i j impl
+    | _, _, _ => "bad-op"
   | "dynrealm", [c, i], _ =>
     match ofHex c, ofHex i with
     | some c, some i => if impl.any (·.startsWith "crash") then "bad sanitizer-or-crash" else dynSpec c i impl
